@@ -3,7 +3,7 @@ CONSTANTS
   Accessors = {"params", "path", "originalurl", "protocol", "query", "queries", "formvalue", "header", "reqheaders", "cookies", "host", "hostname", "body", "bodyraw", "ip", "baseurl", "subdomains", "method", "genericquery", "genericquerybytes", "genericparams", "bindquery", "bindform", "bindheader", "bindcookie", "binduri", "bindjson"}
   Shapes = {"get", "form", "json", "identity", "unknownenc"}
   ReuseKinds = {"same", "shorter", "longer", "otherroute", "malformed"}
-  MaxReuse = 3
+  MaxReuse = 5
   Aliasing = {}
 INVARIANT StaysValid
 INVARIANT Emit
